@@ -54,6 +54,23 @@ def clause1(P, res):
             bad.append("presence check not made under the write guard")
         if len(aggs) < 2:
             bad.append("does not build both Occupied and Vacant entries")
+        # Vacant means absent: VacantEntry::insert ignores what the map insert returns (no cost subtraction, no timer cancel), which is only right for a key that is not there
+        absent = []
+        for blk in range(len(b.blocks)):
+            s = None if b.is_cleanup(blk) else b.switch_source(blk)
+            if s and s["kind"] == "call" and cl.is_map_call(s["event"]) and s["event"].method == "contains_key":
+                absent += b.edges_by_label(blk).get("true" if s.get("neg") else "false", [])
+        for g in [e for e in chk if e.method in ("get", "get_mut")]:
+            absent += cl.result_switch_edges(b, g, "None")
+        vbid = "fibre_cache::entry_api_async::AsyncVacantEntry::<'a, K, V, H>::insert" if "futures" in bid else "fibre_cache::entry_api::VacantEntry::<'a, K, V, H>::insert"
+        vb = P.body(vbid)
+        old_handled = vb is not None and all(cl.result_switch_edges(vb, i, "Some") or len(vb.readers_of_local(i.data["d"][0])) > 0 for i in cl.map_events(vb, {"insert"}))
+        for a in aggs:
+            if old_handled:
+                break       # VacantEntry::insert looks at the replaced entry itself: presenting a present key as vacant is then safe
+            if a.data["r"]["adt"].endswith("VacantEntry") and not (absent and b.edges_dominate(absent, a.pos)):
+                bad.append(f"a Vacant entry is built at {a.loc} on a path where the key may be present in the map (VacantEntry::insert would replace it without subtracting its cost "
+                           "or cancelling its timers)")
         if bad:
             res.violated(rid, key, "; ".join(bad), where=where)
         else:
